@@ -246,6 +246,11 @@ def kf_constraints(G: GP, x, specs):
                 if a in G.atoms and sg in groups:
                     groups[sg].append(x[a])
             out += [OR(v) for _, v in sorted(groups.items())]
+        elif spec["kind"] == "all_false":
+            sg_set = {tuple(sg) for sg in spec["sigs"]}
+            for a, sg in G.sig.items():
+                if a in G.atoms and sg in sg_set:
+                    out.append(NOT(x[a]))
         elif spec["kind"] == "dom_superset":
             pre = spec["prefix"]
             names = {sg[0] for sg in G.sig.values()}
